@@ -16,6 +16,10 @@ CLAIMED = {
      text='For every translated stage a Coq theorem states that, for every grid size and every circulant differentiation matrix, cyclically shifting all inputs shifts every covered output (tables/shift_cover.json) and preserves the residual equations of the sigma and O(r^2) solves; any use of a fixed grid index in a covered formula breaks the obligation.',
      note='Excluded because origin-dependent by definition: untwisted coefficients on helical axes, varphi (its induced law is checked numerically), Cartesian components. iota2 is excluded (C19 finding). Not proved: Newton reaches the shifted fixed point; init_axis Fourier sums under coefficient rotation are checked numerically by the harness.',
      ref='DESIGN.md section 6 C05'),
+ 'C04': dict(level='proof', technique='Coq theorems (ring/field) over the shallow reading of the program regenerated from calculate_r2: assembled block rows = full O(r^2) equations for every linear differentiation operator; closed forms; oracle-spec validation of np.linalg.solve',
+     text='The residual of each block row of the linear system assembled by calculate_r2 is proved identical to the corresponding O(r^2) differential equation written independently in full form, for every index type, every linear differentiation operator (so every grid size and matrix) and every input; the two algebraic constraints and the closed forms of G2, beta_1s and the B20 statistics are proved identically. A dropped or mis-signed from_X20/from_Y20/inhomogeneous piece, a wrong block, iota vs iotaN, or a changed closed form breaks the proof.',
+     note='Assumed: np.linalg.solve returns a solution of the assembled system (its residual is measured on every correspondence case). Not proved: size of the float residual relative to conditioning. Trusted: Coq kernel, 3 Reals axioms, translator (validated each run), the hand-written spec props/C04_spec.v.',
+     ref='DESIGN.md section 6 C04'),
 }
 checks, na = [], []
 for p in props:
